@@ -932,6 +932,10 @@ def gen_c09(rng, oracle, run_index, tier="quick"):
     g = Gen(rng, p, oracle)
     pair_solver = rng.choice(["builtin", "builtin", {"mode": "exact"}, None])
     echo_prob = rng.choice([0.0, 0.1, 0.25])
+    if rel == "twin":
+        # near-twins are only worth having if the same things are asked of both
+        echo_prob = rng.choice([0.15, 0.3, 0.4])
+        p["builtin_solver_prob"] = max(p["builtin_solver_prob"], 0.3)
     forget_prob = rng.choice([0.0, 0.0, 0.03, 0.08])
     # ---- setup population
     first = g.new_model(want_cfg=True if need_cfg else None)
